@@ -53,7 +53,11 @@ func pairIsolation(c *ev.Ctx, keyPrefix string, scs []pairScenario, deadline tim
 			return nil, body, check
 		}
 		mk := func(bound int) *vsched.Explorer {
-			e := &vsched.Explorer{Bound: bound, Fine: true, MaxSteps: 4 * pairMaxPoints, Workers: 1, Deadline: deadline, NewRun: newRun}
+			w := 1
+			if sc.Parallel && !vsched.HasSharedState() {
+				w = workers()
+			}
+			e := &vsched.Explorer{Bound: bound, Fine: true, MaxSteps: 4 * pairMaxPoints, Workers: w, Deadline: deadline, NewRun: newRun}
 			e.OnFailure = func(choices []int, s *vsched.Sched, f *vsched.Failure) {
 				if f.Kind == "replay-divergence" {
 					c.HarnessError("replay divergence: %s", f.Msg)
@@ -88,6 +92,9 @@ func pairIsolation(c *ev.Ctx, keyPrefix string, scs []pairScenario, deadline tim
 		bound := 1
 		if points <= 250 {
 			bound = 2
+		}
+		if sc.MaxBound > 0 && bound > sc.MaxBound {
+			bound = sc.MaxBound
 		}
 		e := e0
 		if c.NViolations() == 0 {
